@@ -147,7 +147,21 @@ func EvalCodec(mt *MsgType, vals []ref.Val, v2 bool) string {
 		return fmt.Sprintf("Write id %d, want %d", raw.ID, mt.ID)
 	}
 	if !bytes.Equal(raw.Payload, want) {
-		return fmt.Sprintf("Write payload % x, spec encoding % x", raw.Payload, want)
+		// a Go string with an embedded NUL: what is written after the NUL is invisible to every
+		// receiver (strings are cut at the first NUL) and the statements leave it open: the
+		// encoding of the string cut at its first NUL is accepted as well
+		cut := ref.CloneVals(in)
+		hasNUL := false
+		for i := range cut {
+			if cut[i].IsS {
+				if k := strings.IndexByte(cut[i].Str, 0); k >= 0 {
+					cut[i].Str, hasNUL = cut[i].Str[:k], true
+				}
+			}
+		}
+		if !hasNUL || !bytes.Equal(raw.Payload, mt.Def.Encode(cut, v2)) {
+			return fmt.Sprintf("Write payload % x, spec encoding % x", raw.Payload, want)
+		}
 	}
 	if _, ext := mt.Def.Sizes(); v2 && ext > 0 && (len(raw.Payload) < 1 || (len(raw.Payload) > 1 && raw.Payload[len(raw.Payload)-1] == 0)) {
 		return fmt.Sprintf("v2 payload not truncated to >=1 byte without trailing zero: % x", raw.Payload)
